@@ -28,3 +28,9 @@ theorem containsL_iff {α} [BEq α] [LawfulBEq α] (l p : List α) : containsL l
       · exact Or.inr h
 
 end GoWebdav.Std.Str
+
+namespace GoWebdav.Std.Str
+/-- `strings.ToUpper` restricted to ASCII letters (names of iCalendar properties and parameters) -/
+def upperChar (c : Char) : Char := if 97 ≤ c.toNat ∧ c.toNat ≤ 122 then Char.ofNat (c.toNat - 32) else c
+def toUpper (s : String) : String := String.ofList (s.toList.map upperChar)
+end GoWebdav.Std.Str
